@@ -12,7 +12,7 @@ _cache = {}
 
 def table():
     if "t" not in _cache:
-        R = reader.read_registry("/repo/pint/default_en.txt")
+        R = reader.read_registry(reader.PINT_ROOT + "/pint/default_en.txt")
         _cache["R"] = R
         _cache["t"] = reader.tla_table(R)
         _cache["sp"] = reader.spelling_tables(R)
